@@ -77,7 +77,7 @@ deriving DecidableEq, Repr, Inhabited
 def rollOut (k : Kind) (op : RollOp) (w minp : Nat) (before after : RS) (v : Val) : RCell :=
   match op with
   | .sum => if after.nn ≥ minp then .num after.sum else .null
-  | .mean => if after.nn ≥ minp then .ratio after.sum after.nn else .null
+  | .mean => if after.nn ≥ minp ∧ after.nn > 0 then .ratio after.sum after.nn else .null
   | .min | .max => if after.nn ≥ minp then (match after.best with | .num n => .num n | .nan => .null) else .null
   | .shift =>
     if before.nSeen ≥ w then (match before.buf.getD before.pos (nullValue k) with | .num n => .num n | .nan => .null) else .null
@@ -125,7 +125,7 @@ def specRollAt (k : Kind) (op : RollOp) (w minp : Nat) (hist : List Val) : RCell
   let nn := (nonNull k win).map valInt
   match op with
   | .sum => if nn.length ≥ minp then .num nn.sum else .null
-  | .mean => if nn.length ≥ minp then .ratio nn.sum nn.length else .null
+  | .mean => if nn.length ≥ minp ∧ nn.length > 0 then .ratio nn.sum nn.length else .null
   | .max => if nn.length ≥ minp then (match extremum true nn with | some m => .num m | none => .null) else .null
   | .min => if nn.length ≥ minp then (match extremum false nn with | some m => .num m | none => .null) else .null
   | .shift =>
